@@ -22,7 +22,7 @@ MANIFEST = {
                  'replayed natively; exhaustive voxel round trip and random-trajectory oracle as bounded stand-ins',
 }
 UNITS = ['unit_volume', 'unit_voxel_size', 'unit_roundtrip', 'unit_roundtrip_fp', 'unit_partition']
-BOUNDED = ['bounded_roundtrip', 'bounded_volume']
+BOUNDED = ['bounded_roundtrip', 'bounded_volume', 'bounded_purity']
 META = {
     'clauses': {'C08.n': 'P', 'C08.edge': 'P', 'C08.bin': 'P', 'C08.count': 'P (cell = Count over the digitised samples; total = T*N by the L-partition lemma)',
                 'C08.pre': 'P (asserts discharged from the positions contract)', 'C08.rt.real': 'P', 'C08.rt.fp': 'P under the standard FP model'},
@@ -386,3 +386,10 @@ def bounded_volume(tier, seed):
         if r['reproduced']:
             st.violation('volume', r['detail'], 'verif.props.c08:replay_volume', inp)
     return st.result()
+
+
+# generic purity stand-in (arguments unchanged, second call equal, fresh call equal) over this property's API calls
+from verif.native.purity import make_bounded as _make_purity  # noqa: E402
+from verif.props.purity_reg import REG as _PURITY_REG  # noqa: E402
+PURITY = _PURITY_REG['C08']
+bounded_purity = _make_purity('C08', PURITY)
